@@ -115,9 +115,36 @@ def streams(ctx):
         ctx.compare('lower-mirror', text, impl, progen.round_script_numbers(resp.get('mirror')))
 
     # --- stream exec: run
-    st = ctx.stream('exec', 'the same programs x initial globals of all value kinds, maxStatements=400: execute_script(parse_script) vs '
-                            'Lean jump machine on the lowered code vs Lean ticked structured semantics; oracle: independent Python '
-                            'big-step reading of the source; non-trivial = terminates without error and runs a loop')
+    impls = exec_stream(ctx, 'exec', cases, models,
+                        'the same programs x initial globals of all value kinds, maxStatements=400: execute_script(parse_script) vs '
+                        'Lean jump machine on the lowered code vs Lean ticked structured semantics; oracle: independent Python '
+                        'big-step reading of the source; non-trivial = terminates without error and runs a loop',
+                        lambda stats: any(k in stats for k in ('while', 'for')))
+    del models
+    stream_history(ctx, parser, cases, impls)
+    stream_print_parse(ctx, parser)
+
+    # --- stream calls: call-heavy programs (per-call state: rest parameters, omitted arguments, in-place mutation, recursion)
+    call_cases = list(gen_call_cases(ctx, ctx.scale(250, 6000), 'calls'))
+    call_models = [parser.parse_script('\n'.join(progen.render(prog))) for prog, _, _ in call_cases]
+    call_impls = exec_stream(ctx, 'calls', call_cases, call_models,
+                             'call-heavy structured programs (CallGen: functions with rest parameters / omitted and surplus arguments whose '
+                             'bodies mutate their parameters in place, return them, recurse to a bounded depth, are re-defined, are defined '
+                             'inside loops, are called through systemPartial; called repeatedly from for/while/sequences with aliased global '
+                             'arrays), maxStatements=400: implementation vs Lean jump machine / ticked / plain structured semantics; oracles: '
+                             'big-step reading with a fresh frame per call (progen) and the independent call-dispatch reading (Ref); '
+                             'non-trivial = terminates without error and calls a script function at least twice',
+                             lambda stats: stats.get('calls', 0) >= 2, own_ref=True)
+    stream_options_history(ctx, parser, cases, call_cases)
+    stream_host_boundary(ctx, parser, cases, impls, call_cases, call_impls)
+    del call_models
+
+
+def exec_stream(ctx, name, cases, models, rule, nontrivial, own_ref=False):
+    """Run every case on the implementation, on the Lean jump machine (lowered code), on the Lean ticked structured semantics and on the
+    plain source-level reading; the property's own oracle is the independent Python big-step reading.  -> implementation outcomes"""
+    suffix = '' if name == 'exec' else '-' + name
+    st = ctx.stream(name, rule)
     impls = [progen.run_impl(model, g, max_statements=400) for (prog, g, _), model in zip(cases, models)]
     reqs = []
     slot = []
@@ -142,23 +169,28 @@ def streams(ctx):
         tags = ['error' if 'error' in impl else 'ok']
         if 'hostexc' in impl:
             tags.append('hostexc')
-        st.case([text, g], nontrivial=('error' not in impl and any(k in stats for k in ('while', 'for'))), tags=tags)
-        ctx.compare('exec', [text, g], impl, m_exec)
-        ctx.compare('execT', [text, g], impl, m_t)
+        if name != 'exec':
+            tags += sorted(stats)
+        st.case([text, g], nontrivial=('error' not in impl and nontrivial(stats)), tags=tags)
+        ctx.compare('exec' + suffix, [text, g], impl, m_exec)
+        ctx.compare('execT' + suffix, [text, g], impl, m_t)
         # the plain source-level reading of the Lean model (T3/T4): same result, log and user-visible globals whenever the
         # implementation run is not cut by the budget and the program has no `continue` inside `while` (F7)
         if m_s is not None and 'oof' not in m_s:
-            ctx.compare('execS', [text, g], progen.strip_hidden(impl), progen.strip_hidden(m_s))
+            ctx.compare('execS' + suffix, [text, g], progen.strip_hidden(impl), progen.strip_hidden(m_s))
         # the property's own oracle: structured reading vs implementation
         if 'error' not in impl and 'hostexc' not in impl:
+            got = progen.strip_hidden(impl)
             ref = progen.run_reference(prog, g)
-            if ref is not None and ref != progen.strip_hidden(impl):
+            if ref is not None and ref != got:
                 ref7 = progen.run_reference(prog, g, f7_quirk=True) if progen.has_while_continue(prog) else None
-                ctx.witness('structured-reading', {'text': text, 'globals': g, 'prog': prog}, ref, progen.strip_hidden(impl),
-                            explained_by_f7=(ref7 is not None and ref7 == progen.strip_hidden(impl)))
-    del models
-    stream_history(ctx, parser, cases, impls)
-    stream_print_parse(ctx, parser)
+                ctx.witness('structured-reading', {'text': text, 'globals': g, 'prog': prog}, ref, got,
+                            explained_by_f7=(ref7 is not None and ref7 == got))
+            elif own_ref:
+                ref2 = run_ref(prog, g)
+                if ref2 is not None and ref2 != got:
+                    ctx.witness('structured-reading', {'text': text, 'globals': g, 'prog': prog}, ref2, got, explained_by_f7=False)
+    return impls
 
 
 def stream_history(ctx, parser, cases, impls):
